@@ -503,7 +503,14 @@ impl Model for M {
 		for i in 0..live.len() {
 			for j in i + 1..live.len() {
 				if live[i].slate == live[j].slate {
-					continue; // same slate twice: the replay clause reports it
+					if live[i].slate.is_some() {
+						// "never adds a second log entry": one slate, two live sent entries, however it came about
+						out.problem(
+							"second-log-entry/two-live-sent-entries-for-one-slate",
+							format!("log entries {} and {} of wallet A are both live TxSent entries of slate {:?}", live[i].entry, live[j].entry, live[i].slate),
+						);
+					}
+					continue;
 				}
 				let shared: Vec<&String> = live[i].inputs.intersection(&live[j].inputs).collect();
 				if !shared.is_empty() {
